@@ -218,10 +218,49 @@ def api_field_fat(t, v):
     return [tuple(one(l, c) for l, c in zip(ls, seq(e))) for e in seq(v)]
 
 
-def api_field_from_plain(t, p, v4form=False):
+class Live:
+    """Long-lived API objects for the recorder: an address / header object that an earlier message carried is, some of
+    the time, UPDATED IN PLACE to the next value (its public attributes assigned) and handed over again instead of a
+    new object being built.  What is logged is the value the object holds when it is packed.  One object is used at
+    most once per message (begin() starts a message)."""
+
+    def __init__(self, rnd, keep=6):
+        self.rnd, self.keep = rnd, keep
+        self.pool = {}
+        self.used = set()
+        self.updated = 0
+
+    def begin(self):
+        self.used = set()
+
+    def get(self, l, x, build):
+        if l not in "Az":
+            return build()
+        pool = self.pool.setdefault((l, SYM), [])
+        free = [o for o in pool if id(o) not in self.used]
+        if free and self.rnd.random() < 0.5:
+            o = self.rnd.choice(free)
+            names = ("services", "ip", "port") if l == "A" else ("version", "prev", "merkle", "time", "bits", "nonce")
+            for n, val in zip(names, x):
+                setattr(o, OBJ_ATTR[(l, n)][0], val)
+            self.updated += 1
+        else:
+            o = build()
+            if len(pool) < self.keep:
+                pool.append(o)
+        self.used.add(id(o))
+        return o
+
+
+def api_field_from_plain(t, p, v4form=False, live=None):
     arr, ls = letters(t)
 
     def one(l, x):
+        if live is not None:
+            return live.get(l, x, lambda: one0(l, x))
+        return one0(l, x)
+
+    def one0(l, x):
         if l == "A" and v4form and x[1][:12] == _mapped_prefix():
             return api(l, x, x[1][12:])
         return api(l, x)
@@ -593,6 +632,143 @@ def msg_class(rec):
     def sz(n):
         return 0 if n == 0 else 1 if n < 253 else 2 if n < 65536 else 3
     return (rec["name"],) + tuple((f["t"], sz(s)) for f, s in zip(seq(rec["fields"]), seq(rec["sizes"])))
+
+
+# ---------------------------------------------------------------- replay of one session (spec/P2PSession.tla)
+
+# attribute of an abstract object (letter, name in the spec's value record) -> attribute of the API object, kind
+OBJ_ATTR = {("A", "services"): ("services", "num"), ("A", "ip"): ("ip_bin", "bytes"), ("A", "port"): ("port", "int"),
+            ("z", "version"): ("version", "num"), ("z", "prev"): ("previous_block_hash", "bytes"),
+            ("z", "merkle"): ("merkle_root", "bytes"), ("z", "time"): ("timestamp", "num"),
+            ("z", "bits"): ("difficulty", "num"), ("z", "nonce"): ("nonce", "num"),
+            ("T", "version"): ("version", "num"), ("T", "lock"): ("lock_time", "num")}
+
+
+def _is_ref(x):
+    return isinstance(x, dict) and "ref" in x
+
+
+def api_field_refs(t, v, objs):
+    """api_field for a template: a value shown as {"ref": id} is the long-lived object objs[id] itself"""
+    arr, ls = letters(t)
+
+    def one(l, x):
+        return objs[x["ref"]] if _is_ref(x) else api(l, plain(l, x), _hint(l, x))
+    if not arr:
+        return one(ls, v)
+    if len(ls) == 1:
+        return [one(ls, e) for e in seq(v)]
+    return [tuple(one(l, c) for l, c in zip(ls, seq(e))) for e in seq(v)]
+
+
+def step_kind(st):
+    """class-level name of a step of the alphabet"""
+    if st["op"] == "set":
+        return "set:%s.%s" % (st["obj"], st["attr"])
+    if st["op"] == "illpack":
+        return "illpack:%s:%s" % (st["name"], st["how"])
+    if st["op"] == "illparse":
+        return "illparse:%s:%s" % (st["as"], "cut" if st["as"] == st["name"] else "payload-of-" + st["name"])
+    return "%s:%s" % (st["op"], st["name"])
+
+
+def new_objects(alpha):
+    return {i: api(alpha["letters"][i], plain(alpha["letters"][i], shown), _hint(alpha["letters"][i], shown))
+            for i, shown in alpha["store"].items()}
+
+
+def step_refs(st):
+    """ids of the stored objects a pack step carries, e.g. "a" / "z" / "-" """
+    found = set()
+
+    def walk(x):
+        if _is_ref(x):
+            found.add(x["ref"])
+        elif isinstance(x, dict):
+            for y in x.values():
+                walk(y)
+        elif isinstance(x, list):
+            for y in x:
+                walk(y)
+    walk(st.get("fields"))
+    return "+".join(sorted(found)) or "-"
+
+
+def run_session(alpha, sess, sym="BTC", stats=None):
+    """Execute one session printed by MC_P2PSession on ONE codec (the network's) and ONE API object per store entry,
+    in order.  Steps whose answer is demanded ("bytes") are compared with the spec's; "free" steps (calls outside the
+    property's quantifier) are only made.  -> [(key, what, detail)]"""
+    use(sym)
+    net = N()
+    M = net.message
+    tag = "session" if sym == "BTC" else "session@" + sym
+    fails = []
+    objs = new_objects(alpha)
+    prev = []
+    for pos, (k, ans) in enumerate(zip(seq(sess["steps"]), seq(sess["ans"]))):
+        st = alpha["steps"][k - 1]
+        kind = step_kind(st)
+
+        def fail(call, what, detail=None):
+            # class of the failing observation: which stored objects the message carries, and the kinds of earlier steps
+            # of the session that touched one of those objects or were calls outside the quantifier
+            mine = set(step_refs(st).split("+"))
+            hist = "+".join(sorted({op for op, touched in prev if touched is None or touched & mine})) or "none"
+            fails.append(("C16|%s|%s|history=%s|%s|%s" % (tag, "pack(%s)" % step_refs(st) if sym == "BTC" else "pack", hist, call, what),
+                          "%s session, step %d (%s) after %s: %s %s" % (sym, pos + 1, kind, ", ".join(
+                              step_kind(alpha["steps"][j - 1]) for j in seq(sess["steps"])[:pos]) or "nothing", call, what),
+                          {"call": call, "what": what, "detail": detail, "network": sym, "step": pos + 1,
+                           "case": {"k": "session", "steps": seq(sess["steps"]), "ans": seq(sess["ans"])}, "alphabet": alpha}))
+
+        if st["op"] == "set":
+            attr, how = OBJ_ATTR[(alpha["letters"][st["obj"]], st["attr"])]
+            val = expand(st["v"]) if how == "bytes" else num(st["v"]) if how == "num" else int(st["v"])
+            setattr(objs[st["obj"]], attr, val)
+        elif st["op"] in ("pack", "illpack"):
+            fl = seq(st["fields"])
+            try:
+                kwargs = {f["n"]: api_field_refs(f["t"], f["v"], objs) for f in fl if not f["missing"]}
+            except Exception as e:      # a constructor refuses: for a pack step a value of the declared type was refused
+                kwargs = None
+                if st["op"] == "pack":
+                    fail("construct", "exc=" + type(e).__name__, repr(e)[:300])
+            if kwargs is not None and st["op"] == "illpack":
+                r = guarded((st["name"], "illpack"), M.pack, st["name"], **kwargs)
+                if stats is not None:
+                    stats["ill_calls"] = stats.get("ill_calls", 0) + 1
+                    stats["ill_raised"] = stats.get("ill_raised", 0) + (r[0] == "exc")
+            elif kwargs is not None:
+                want_bytes = expand(ans["bytes"])
+                names = [f["n"] for f in fl]
+                r = guarded((st["name"], "pack"), M.pack, st["name"], **kwargs)
+                if r[0] == "exc":
+                    fail("pack", exc_what(r), r[2])
+                elif r[0] == "ok" and r[1] != want_bytes:
+                    fail("pack", "bytes-differ", {"field": first_diff_field(seq(ans["sizes"]), names, want_bytes, r[1]),
+                         "want": want_bytes[:400].hex(), "got": bytes(r[1])[:400].hex(), "want_len": len(want_bytes), "got_len": len(r[1])})
+                r = guarded((st["name"], "parse"), M.parse, st["name"], want_bytes)
+                if r[0] == "exc":
+                    fail("parse", exc_what(r), r[2])
+                elif r[0] == "ok":
+                    d = r[1]
+                    for f in seq(ans["fields"]):
+                        w = plain_field(f["t"], f["v"])
+                        try:
+                            g = proj_field(f["t"], d[f["n"]])
+                        except Exception as e:      # missing key / not of the field's type
+                            fail("parse", "field-type", {"field": f["n"], "error": repr(e)[:300]})
+                            break
+                        if not same(w, g):
+                            fail("parse", "field-differs", {"field": f["n"], "want": _short(w), "got": _short(g)})
+                            break
+        elif st["op"] == "illparse":
+            r = guarded((st["as"], "illparse"), M.parse, st["as"], expand(ans["input"]))
+            if stats is not None:
+                stats["ill_calls"] = stats.get("ill_calls", 0) + 1
+                stats["ill_raised"] = stats.get("ill_raised", 0) + (r[0] == "exc")
+        # (op, objects touched; None: a call outside the quantifier - it touches the codec)
+        prev.append(("set", {st["obj"]}) if st["op"] == "set" else ("pack", set(step_refs(st).split("+"))) if st["op"] == "pack" else (st["op"], None))
+    return fails
 
 
 # ---------------------------------------------------------------- replay of one codec case
